@@ -7,11 +7,14 @@
    inflows of the vault handlers, GetAmountFromCollector (auction lots, debt cover),
    DecreaseNetFeeCollectedData, WasmMsgGetSurplusFund, generation-1 surplus / debt auction starts
    and closes, generation-1 and generation-2 liquidation penalties, the generation-2
-   CheckStatsForSurplusAndDebt and the generation-2 surplus / debt auction closes, with any
-   arguments; failed messages / hooks leave the state unchanged ([apply_step]: baseapp,
+   CheckStatsForSurplusAndDebt and the generation-2 surplus / debt auction closes, the generation-2
+   TriggerEsm hand-back (penalty share to the collector), the emergency-shutdown redemption of the
+   collector's books (esm SetUpDebtRedemptionForCollector) and the collector's own MsgDeposit +
+   Refund, with any arguments; failed messages / hooks leave the state unchanged ([apply_step]: baseapp,
    ApplyFuncIfNoError).  [genesis assets apps funds] is the empty store with funded users.
    [valid_op]: users are accounts >= 0, DecreaseNetFeeCollectedData is not given a negative
-   amount, WasmMsgGetSurplusFund is given the coin of the asset it names. *)
+   amount, WasmMsgGetSurplusFund is given the coin of the asset it names, the generation-2 debt
+   auction's DebtToken is in the denom of the collector asset (CheckStatsForSurplusAndDebt mints it so). *)
 From Comdex Require Import Lib.Base Lib.DecArith Model.Collector Model.Locker
   Proofs.CollectorProofs Proofs.LockerProofs Proofs.C13Locker Proofs.C13Collector.
 
@@ -84,12 +87,13 @@ Proof.
 Qed.
 Print Assumptions c13_net_fee_nonneg.
 
-(* the per-op table, in ANY state: a successful op other than the savings-rate change moves the
+(* the per-op table, in ANY state: a successful op other than the savings-rate change and the
+   emergency redemption (which touch several lockers / book entries: next two theorems) moves the
    book entry net_fee(a, d) by exactly [nf_delta_of] (fees / interest / penalties booked in, locker
    rewards / auction lots / debt cover booked out) and the collector's balance of exactly one
    denom by exactly [coin_delta_of]; both tables are in Model/Locker.v *)
 Theorem c13_net_fee_delta : forall s o s',
-  valid_op o = true -> is_upd_lookup o = false -> step s o = Ok s' ->
+  valid_op o = true -> is_multi o = false -> step s o = Ok s' ->
   (forall a d, nf_val (cs s') a d = nf_val (cs s) a d + nf_delta_of s s' o (a, d)) /\
   (forall d, bnk (cs s') (A_COLLECTOR, d) = bnk (cs s) (A_COLLECTOR, d) +
              (if d =? fst (coin_delta_of s s' o) then snd (coin_delta_of s s' o) else 0)) /\
@@ -122,10 +126,35 @@ Proof.
 Qed.
 Print Assumptions c13_net_fee_delta_rate_change.
 
+(* the emergency-shutdown redemption (esm SetUpDebtRedemptionForCollector) after a history outside
+   the known-finding class: every book entry of the app that is listed as a debt asset is taken off
+   the books WHOLE, exactly that many coins of that asset are burnt out of the collector, no other
+   app's entry and no other denom moves; in particular the function's `return nil` after a failed
+   DecreaseNetFeeCollectedData (coins burnt, books kept) is unreachable *)
+Theorem c13_net_fee_delta_esm_redeem : forall assets apps funds ops app st l s',
+  forallb valid_fund funds = true -> forallb valid_op ops = true -> forallb kf_free ops = true ->
+  let s := run (genesis assets apps funds) ops in
+  step s (EsmRedeem app st l) = Ok s' ->
+  (forall a d, nf_val (cs s') a d = if (a =? app) && esm_has1 l d then 0 else nf_val (cs s) a d) /\
+  (forall d, bnk (cs s') (A_COLLECTOR, d) = bnk (cs s) (A_COLLECTOR, d) - (nf_val (cs s) app d - nf_val (cs s') app d)) /\
+  (forall keys, holds_C13_delta keys s (EsmRedeem app st l) s' = true).
+Proof.
+  intros assets apps funds ops app st l s' Hf Hv Hk s H.
+  pose proof (run_cinv ops _ (genesis_cinv assets apps funds Hf) Hv Hk) as HC. fold s in HC.
+  assert (H' := H). cbn [step] in H'. destruct HC as (HI & Hn & Hb).
+  destruct (esm_redeem_eff _ _ _ _ _ Hn Hb H') as (_ & _ & (A1 & A2)).
+  split; [exact A1|]. split; [exact A2|]. intros keys. exact (delta_holds_esm keys s _ _ _ s' (conj HI (conj Hn Hb)) H).
+Qed.
+Print Assumptions c13_net_fee_delta_esm_redeem.
+
 (* "increase exactly by the fees, interest and penalties paid in, decrease exactly by what is paid
    out": outside the known-finding classes every successful op changes the summed net fees of
    each asset by exactly the change of the collector's coin balance of that asset (for
-   DecreaseNetFeeCollectedData alone, which moves no coins, the books only fall) *)
+   DecreaseNetFeeCollectedData alone, which moves no coins, the books only fall).  This includes the
+   savings-rate change: collector.LockerIterateRewards writes the decremented tracker, then
+   DecreaseNetFeeCollectedData, then the transfer, and `continue`s when either fails; after a
+   history outside the class the transfer cannot fail once the books were lowered (the collector
+   holds at least the book entry), so the books never fall without the coins being paid *)
 Theorem c13_net_fee_flow : forall assets apps funds ops o s' la ld,
   forallb valid_fund funds = true -> forallb valid_op ops = true -> forallb kf_free ops = true ->
   valid_op o = true -> kf_C13_any o = false -> NoDup la ->
@@ -139,9 +168,9 @@ Print Assumptions c13_net_fee_flow.
 
 (* the collector's custody account holds, for every asset, at least the sum over any
    duplicate-free list of apps of the recorded net fees - after every history outside the
-   known-finding classes kf_C13_2 (generation-2 surplus close) and kf_C13_3 (generation-2 debt
-   close); the former class kf_C13_1 (generation-2 penalty booked under the collateral asset) is
-   repaired and no longer excluded *)
+   known-finding class kf_C13_2 (generation-2 surplus close); the former classes kf_C13_1
+   (generation-2 penalty booked under the collateral asset) and kf_C13_3 (generation-2 debt close
+   booked the minted amount) are repaired and no longer excluded *)
 Theorem c13_collector_backed : forall assets apps funds ops la ld d,
   forallb valid_fund funds = true -> forallb valid_op ops = true -> forallb kf_free ops = true -> NoDup la ->
   let s := run (genesis assets apps funds) ops in
@@ -176,14 +205,27 @@ Theorem c13_collector_backed_refuted_surplus :
 Proof. exact kf2_refuted. Qed.
 Print Assumptions c13_collector_backed_refuted_surplus.
 
-(* C13-F3: a generation-2 debt auction close books CollateralToken.Amount (700 of the minted
-   secondary asset) as net fees of the collector asset while DebtToken (500) is what arrives *)
-Theorem c13_collector_backed_refuted_debt :
-  forallb valid_op ex_kf3_ops = true /\ last_kf kf_C13_3 ex_kf3_ops = true /\
-  holds_C13_backed [1; 2] [1; 2; 3] (run ex_genesis ex_kf3_ops) = false /\
-  holds_C13_flow [1; 2] [1; 2; 3] (run ex_genesis (removelast ex_kf3_ops)) (V2DebtClose 1 2 700 2 500) (run ex_genesis ex_kf3_ops) = false.
-Proof. exact kf3_refuted. Qed.
-Print Assumptions c13_collector_backed_refuted_debt.
+(* C13-F2, consequence for the savings-rate change: once the surplus close has left the collector
+   with fewer coins (2) than the books say (1002), LockerIterateRewards lowers the books by the
+   reward (3), cannot pay it and `continue`s: books 999, coins still 2, the locker uncredited *)
+Theorem c13_net_fee_flow_refuted_rate_change_after_surplus_close :
+  let s := run ex_genesis (removelast ex_kf2_rate_ops) in let s' := run ex_genesis ex_kf2_rate_ops in
+  forallb valid_op ex_kf2_rate_ops = true /\ forallb kf_free ex_kf2_rate_ops = false /\
+  bnk (cs s) (A_COLLECTOR, 2) = 2 /\ nf_val (cs s) 1 2 = 1002 /\
+  nf_val (cs s') 1 2 = 999 /\ bnk (cs s') (A_COLLECTOR, 2) = 2 /\
+  net_sum (lockers_of s' 1 2) = net_sum (lockers_of s 1 2) /\
+  holds_C13_flow [1; 2] [1; 2; 3] s (UpdLookup 1 2 50000000000000000 1000 500 500 500 [3500000000000000000]) s' = false.
+Proof. exact kf2_rate_change_unpaid. Qed.
+Print Assumptions c13_net_fee_flow_refuted_rate_change_after_surplus_close.
+
+(* C13-F3 (repaired in /repo, fix: PENDING): a generation-2 debt auction close with 700 of the secondary
+   asset minted for the bidder and DebtToken = 500 arriving: 500 is booked, the former witness is backed *)
+Example c13_debt_close_regression :
+  forallb valid_op ex_kf3_ops = true /\ forallb kf_free ex_kf3_ops = true /\
+  holds_C13_backed [1; 2] [1; 2; 3] (run ex_genesis ex_kf3_ops) = true /\
+  holds_C13_flow [1; 2] [1; 2; 3] (run ex_genesis (removelast ex_kf3_ops)) (V2DebtClose 1 2 700 2 500) (run ex_genesis ex_kf3_ops) = true /\
+  nf_val (cs (run ex_genesis ex_kf3_ops)) 1 2 = 500 /\ bnk (cs (run ex_genesis ex_kf3_ops)) (A_COLLECTOR, 2) = 500.
+Proof. exact kf3_regression. Qed.
 
 (* ---- non-vacuity: a concrete history (ex_ops, Proofs/C13Collector.v) that meets every
    hypothesis, in which every op succeeds, rewards are paid three ways (reward-calc message,
@@ -218,4 +260,20 @@ Example c13_nonvacuous_rate_change :
   let s := run ex_genesis (firstn 14 ex_ops) in let s' := run ex_genesis ex_ops in
   net_sum (lockers_of s' 1 2) = net_sum (lockers_of s 1 2) + 4 /\ nf_val (cs s') 1 2 = nf_val (cs s) 1 2 - 4 /\
   bnk (cs s') (A_COLLECTOR, 2) = bnk (cs s) (A_COLLECTOR, 2) - 4.
+Proof. vm_compute. repeat split. Qed.
+
+(* the ESM / refund paths (ex_ops2, Proofs/C13Collector.v): every op succeeds; TriggerEsm hands 1200 of
+   5000 collected and then all of 700 to the collector, the collector MsgDeposit books 25000000000
+   and the refund takes 20163520000 out of coins and books, the emergency redemption burns app 1's
+   debt-asset entry (1900 of asset 3; the collateral-class entry of asset 2 stays) and app 2's *)
+Example c13_nonvacuous_esm_refund :
+  forallb valid_op ex_ops2 = true /\ forallb kf_free ex_ops2 = true /\
+  forallb (fun n => is_ok (step (run ex_genesis2 (firstn n ex_ops2)) (nth n ex_ops2 (SetEsm 0 false)))) (seq 0 (length ex_ops2)) = true /\
+  (let s := run ex_genesis2 (firstn 2 ex_ops2) in nf_val (cs s) 1 3 = 1900 /\ bnk (cs s) (A_COLLECTOR, 3) = 1900) /\
+  (let s := run ex_genesis2 (firstn 3 ex_ops2) in nf_val (cs s) 2 3 = 4836480000 /\ bnk (cs s) (A_COLLECTOR, 3) = 4836481900) /\
+  (let s := run ex_genesis2 (firstn 5 ex_ops2) in nf_val (cs s) 1 3 = 0 /\ nf_val (cs s) 1 2 = 900 /\ bnk (cs s) (A_COLLECTOR, 3) = 4836480000) /\
+  (let s := run ex_genesis2 ex_ops2 in nf_val (cs s) 2 3 = 0 /\ bnk (cs s) (A_COLLECTOR, 3) = 0 /\ bnk (cs s) (A_COLLECTOR, 2) = 900 /\
+     holds_C13_backed [1; 2] [1; 2; 3] s = true) /\
+  holds_C13_flow [1; 2] [1; 2; 3] (run ex_genesis2 (firstn 4 ex_ops2)) (EsmRedeem 1 true [(2, 0); (3, 1)]) (run ex_genesis2 (firstn 5 ex_ops2)) = true /\
+  holds_C13_delta [(1, 2); (1, 3); (2, 3)] (run ex_genesis2 (firstn 4 ex_ops2)) (EsmRedeem 1 true [(2, 0); (3, 1)]) (run ex_genesis2 (firstn 5 ex_ops2)) = true.
 Proof. vm_compute. repeat split. Qed.
